@@ -36,6 +36,11 @@ claim("C05",
       "Trusted: Lean kernel, 3 axioms, extractor, hooks, litparse (syntax to IR), Go compiler as the semantics of the emitted subset. Assumed: math/rand contracts (Intn(n) < n, Perm is a permutation) for well-formedness of the draws.",
       "Lean 4 proof (encoder/decoder round trips for all inputs and draws) + emitted-decoder evaluation in the model + compile-and-run", "DESIGN.md 5/C05")
 
+claim("C08",
+      "PARTIAL: the SSA analysis deciding WHICH types reach reflection is not modelled in Lean (its order independence is sampled by rebuilds). Proved (Lean 4): names_restored - for every name table and every type string built from literal syntax and obfuscated names, the replacement specification returns the string with every name replaced by its original (C04's round-trip theorem over an arbitrary template, under the explicit unique-parse hypothesis); merge_any / merge_monotone / merge_keys_comm - merging per-package name maps never loses a recorded name and the recorded key set does not depend on merge order. Tie: the replacer garble injects into binaries vs. strings.NewReplacer vs. the specification on 1200 sorted name-table-like pair lists; end to end, generated programs reflect on nested/embedded/pointer/slice/map/array/generic/aliased structs declared in a dependency through direct calls, helper chains, variadics, the stored-then-passed shape, encoding/json Marshal/Unmarshal and %+v, and are rebuilt 5 times after comment-only edits (alternately only the dependency, then every file) - each build must print exactly what the regular build prints.",
+      "Trusted: Lean kernel, 3 axioms, hooks, generator. Package qualifiers of Type.String()/%T are outside the compared observables. Known finding (open): a struct reaching reflection only through a fmt verb keeps obfuscated field names.",
+      "Lean 4 proof (name replacement, cache merge) + replacer differential + rebuilt end-to-end reflection programs", "DESIGN.md 5/C08")
+
 claim("C09",
       "PARTIAL (absence by coincidence is a probability statement). Proved in Lean 4: rewritten_iff_not_exempt - the rewrite decision equals the negation of the property's exemption list, with the 8-byte..2-KiB window taken from constants regenerated from literals.go on every run (theorem window); simple_cipher_differs - for every plaintext and key the stored ciphertext of the simple strategy agrees with the plaintext exactly at the positions whose key byte is zero (an aligned leak needs an all-zero key window), via op_fixed_iff_zero for the three byte operators. Tie: a generated program with a unique high-entropy marker in each of 27 syntactic positions (var initialisers, arguments, returns, composite elements, struct fields, map keys/values, closures, generic functions, init, case labels, concatenations, []byte/[N]byte/&[]byte/&[N]byte literals; lengths 7..2049) is built with the real garble -literals [-seed]; every marker the model says must be rewritten is searched in the binary, together with the seed (text and raw bytes).",
       "Trusted: Lean kernel, 3 axioms, extractor, marker generator. Not modelled: the compiler's constant handling (sampled by the scan).",
